@@ -1153,7 +1153,7 @@ func (w *world) classify(reasons []string) string {
 
 var _ = kit.Register(kit.Prop[Case]{
 	Name: "HeaderQuorum",
-	Rule: "3-8 validators (chancellor/senator/house, online/offline, stakes up to 2T, online chamber stake >= T), protocol triple in {(26,2000,4000),(5,200,400),(3,50,100)}, ordinary round or certificate round 32768; an honestly proposed and voted header (real VRF/BLS) gets 0-4 adversarial edits (drop/duplicate/replay votes of another index/step/seed, other block or payload signatures, house/offline/out-of-range voters, inflated weights, corrupted proofs, stolen indices, empty/garbage aggregates, container round index, header-chosen thresholds, proposer forgeries, trimming to just below / exactly the quorum); oracle = reference recount from ground truth (exact binomial quantile, who signed what) under the PROTOCOL thresholds: accepted while counted weight < quorum or proposer credential invalid = violation; non-trivial = edited case whose counted weight is non-zero or within 25% of the quorum",
+	Rule: "3-8 validators (chancellor/senator/house, online/offline, stakes up to 2T, online chamber stake >= T), protocol triple in {(26,2000,4000),(5,200,400),(3,50,100)}, ordinary round or certificate round 32768; an honestly proposed and voted header (real VRF/BLS) gets 0-4 adversarial edits (drop/duplicate/replay votes of another index/step/seed, other block or payload signatures, house/offline/out-of-range voters, inflated weights, corrupted proofs, stolen indices, empty/garbage aggregates, container round index, header-chosen thresholds, proposer forgeries, trimming to just below / exactly the quorum; compound attacks: author-chosen committee sizes with a few votes, outsiders topping up, credentials computed against ANOTHER height's validator set or under the PREVIOUS protocol version's half-size committees, a block numbered k*2^64 without votes); every second case is also verified through Server.VerifyHeader on a synthetic ChainReader (the engine resolves seed / stake / certificate look-backs; optionally every non-look-back header carries a decoy validator set, the verified hash is already canonical, the protocol version switched 9-12 blocks earlier and the header is the last one of a VerifyHeaders batch over the switch) - acceptance by any path counts; oracle = reference recount from ground truth (exact binomial quantile, who signed what) under the PROTOCOL thresholds: accepted while counted weight < quorum or proposer credential invalid = violation; non-trivial = edited case whose counted weight is non-zero or within 25% of the quorum",
 	Gen:  genCase, Run: runCase,
 	Quick: 260, Thorough: 4000, Chunk: 65, MinNonTrivialPct: 35,
 })
